@@ -498,6 +498,12 @@ func (root *Root) ParseExecutableReader(r io.Reader) (*Executable, error) {
 func (root *Root) SDL(full bool, desc ...bool) string {
 	var b strings.Builder
 
+	if root.schema != nil && root.implicitSchema && !root.schema.conventional() {
+		// An implied schema that has been extended can not be implied from
+		// the type names by a reader of the SDL.
+		b.Write([]byte{'\n'})
+		b.WriteString(root.schema.SDL(desc...))
+	}
 	for _, t := range root.types.list {
 		if full || !t.Core() {
 			b.Write([]byte{'\n'})
